@@ -2188,7 +2188,17 @@ impl ZeroCopyReader for File {
         if ret > 0 {
             let slice = unsafe { FileVolatileSlice::from_raw_ptr(buf.as_mut_ptr(), ret) };
             // Write from slice to f at offset off.
-            f.write_at_volatile(slice, off)
+            let res = f.write_at_volatile(slice, off);
+            // self is read sequentially: bytes taken from it that f did not accept (a short
+            // write, or an error) are given back, otherwise they would be lost.
+            let written = match res {
+                Ok(n) => n,
+                Err(_) => 0,
+            };
+            if written < ret {
+                self.seek(SeekFrom::Current(-((ret - written) as i64)))?;
+            }
+            res
         } else {
             Ok(0)
         }
